@@ -1,7 +1,8 @@
 import XpmVerif.Model.Sched
 /-! Proofs for C08 (token capacity) over the scheduler model `Model/Sched.lean`.
 
-    Invariant `Inv s N` (= `GInv s N none`), preserved by every event for ANY flags:
+    Invariant `InvA ar s N` (= `GInv ar s N none`; `Inv s N := InvA false s N`), preserved by every event for ANY
+    flags (`ar = true` is allowed when `fl.abortReleases = true` and adds: `pc = lockExitAbort → held = []`):
     * per job `j` (`KJ`): the number of `start j` / `wake j` / `resume j`+helper-thread continuations pending
       is exactly the one its `pc` calls for (one coroutine, one continuation); `held ≠ [] → pc ∈
       {lockExitAbort, lockExitRun, codeWait}`; `pc ∈ {lockExitRun, codeWait} → held = range deps.length`;
@@ -159,19 +160,22 @@ def PC.run : PC → Bool
   | _ => false
 
 /-- job record `jb` is consistent with `cs`/`cw`/`cr` pending start/wake/resume continuations. -/
-def KJ (jb : Job) (cs cw cr : Nat) : Prop :=
+def KJ (ar : Bool) (jb : Job) (cs cw cr : Nat) : Prop :=
   cs = (if jb.pc = .created then 1 else 0) ∧
   cw = (if jb.pc = .evtWait ∧ jb.sleeping = false then 1 else 0) ∧
   cr = (if jb.pc.res then 1 else 0) ∧
   (jb.sleeping = true → jb.pc = .evtWait) ∧
   (jb.held ≠ [] → jb.pc.holds = true) ∧
   (jb.pc.run = true → jb.held = List.range jb.deps.length) ∧
-  (jb.state = .running → jb.pc.run = true)
+  (jb.state = .running → jb.pc.run = true) ∧
+  (ar = true → jb.pc = .lockExitAbort → jb.held = [])
 
 /-- job whose continuation is being executed (its `pc` is stale). -/
 def KF (e1 e2 : Bool) (jb : Job) (cs cw cr : Nat) : Prop :=
   cs = 0 ∧ cw = 0 ∧ cr = 0 ∧ jb.sleeping = false ∧ jb.pc ≠ .none ∧
   (e1 = true → jb.state ≠ .running) ∧ (e2 = true → jb.held = [])
+
+variable {ar : Bool}
 
 theorem depChanged_held (fl jb d st) : (depChanged fl jb d st).1.held = jb.held := by
   unfold depChanged eventSet; simp only []; repeat' split
@@ -209,8 +213,8 @@ theorem depChanged_sl (fl jb d st) :
   unfold depChanged eventSet; simp only []; repeat' split
   all_goals simp_all
 
-theorem depChanged_KJ (fl jb d st cs cw cr) (h : KJ jb cs cw cr) :
-    KJ (depChanged fl jb d st).1 cs (cw + if (depChanged fl jb d st).2 = true then 1 else 0) cr := by
+theorem depChanged_KJ (fl jb d st cs cw cr) (h : KJ ar jb cs cw cr) :
+    KJ ar (depChanged fl jb d st).1 cs (cw + if (depChanged fl jb d st).2 = true then 1 else 0) cr := by
   have hl := depChanged_len fl jb d st
   have hh := depChanged_held fl jb d st
   have hp := depChanged_pc fl jb d st
@@ -219,8 +223,8 @@ theorem depChanged_KJ (fl jb d st cs cw cr) (h : KJ jb cs cw cr) :
   unfold KJ at *
   rw [hl, hh, hp]
   generalize (depChanged fl jb d st) = r at *
-  obtain ⟨h1, h2, h3, h4, h5, h6, h7⟩ := h
-  refine ⟨h1, ?_, h3, ?_, h5, h6, ?_⟩
+  obtain ⟨h1, h2, h3, h4, h5, h6, h7, h8⟩ := h
+  refine ⟨h1, ?_, h3, ?_, h5, h6, ?_, h8⟩
   · cases hw : r.2 <;> simp_all
   · cases hw : r.2 <;> simp_all
   · rcases hs with hs | hs
@@ -362,21 +366,21 @@ theorem acquireAll_eq (s : St) (j k d : Nat) :
 
 /-! ### the state invariant -/
 /-- per-job predicate: the job named by the mode `m` is in flight, every other job is at rest. -/
-def PJ (m : Option (Nat × Bool × Bool)) (j : Nat) (jb : Job) (cs cw cr : Nat) : Prop :=
+def PJ (ar : Bool) (m : Option (Nat × Bool × Bool)) (j : Nat) (jb : Job) (cs cw cr : Nat) : Prop :=
   match m with
-  | some (j0, e1, e2) => if j = j0 then KF e1 e2 jb cs cw cr else KJ jb cs cw cr
-  | none => KJ jb cs cw cr
+  | some (j0, e1, e2) => if j = j0 then KF e1 e2 jb cs cw cr else KJ ar jb cs cw cr
+  | none => KJ ar jb cs cw cr
 
 def CapC (n : Nat) (jobs : Nat → Job) (avail : Nat → Int) (total : Nat → Nat) : Prop :=
   ∀ t, avail t + (sumTo n (fun j => heldTok (jobs j) t) : Nat) = (total t : Int) ∧ 0 ≤ avail t
 
-def GI (n : Nat) (jobs : Nat → Job) (ready : List Cb) (threads : List (TK × Nat)) (avail : Nat → Int)
+def GI (ar : Bool) (n : Nat) (jobs : Nat → Job) (ready : List Cb) (threads : List (TK × Nat)) (avail : Nat → Int)
     (total : Nat → Nat) (N : Nat) (m : Option (Nat × Bool × Bool)) : Prop :=
-  (∀ j, PJ m j (jobs j) (nS ready j) (nW ready j) (nR ready j + nT threads j)) ∧
+  (∀ j, PJ ar m j (jobs j) (nS ready j) (nW ready j) (nR ready j + nT threads j)) ∧
   (∀ j, N ≤ j → (jobs j).pc = .none) ∧ N ≤ n ∧ CapC n jobs avail total
 
-def GInv (s : St) (N : Nat) (m : Option (Nat × Bool × Bool)) : Prop :=
-  GI s.n s.jobs s.ready s.threads s.avail s.total N m
+def GInv (ar : Bool) (s : St) (N : Nat) (m : Option (Nat × Bool × Bool)) : Prop :=
+  GI ar s.n s.jobs s.ready s.threads s.avail s.total N m
 
 theorem CapC_same {n jobs avail total} (j : Nat) (jb' : Job)
     (hh : ∀ t, heldTok jb' t = heldTok (jobs j) t) (h : CapC n jobs avail total) :
@@ -408,14 +412,14 @@ theorem heldTok_eq {jb jb' : Job} (hh : jb'.held = jb.held) (ho : jb'.deps.map (
     heldTok jb' t = heldTok jb t := by
   unfold heldTok; rw [hh]; exact sumTok_congr ho _ _
 
-theorem GI_upd {n jobs ready threads avail total N m} (h : GI n jobs ready threads avail total N m)
+theorem GI_upd {n jobs ready threads avail total N m} (h : GI ar n jobs ready threads avail total N m)
     (m' : Option (Nat × Bool × Bool)) (j : Nat) (jb' : Job) (cbs : List Cb) (ths : List (TK × Nat)) (avail' : Nat → Int)
     (hpc : N ≤ j → jb'.pc = .none)
     (hother : ∀ i, i ≠ j → nS cbs i = 0 ∧ nW cbs i = 0 ∧ nR cbs i = 0 ∧ nT ths i = 0)
-    (hm : ∀ i, i ≠ j → ∀ jb a b c, PJ m i jb a b c → PJ m' i jb a b c)
-    (hj : PJ m' j jb' (nS ready j + nS cbs j) (nW ready j + nW cbs j) (nR ready j + nR cbs j + (nT threads j + nT ths j)))
+    (hm : ∀ i, i ≠ j → ∀ jb a b c, PJ ar m i jb a b c → PJ ar m' i jb a b c)
+    (hj : PJ ar m' j jb' (nS ready j + nS cbs j) (nW ready j + nW cbs j) (nR ready j + nR cbs j + (nT threads j + nT ths j)))
     (hcap : CapC n (upd jobs j jb') avail' total) :
-    GI n (upd jobs j jb') (ready ++ cbs) (threads ++ ths) avail' total N m' := by
+    GI ar n (upd jobs j jb') (ready ++ cbs) (threads ++ ths) avail' total N m' := by
   obtain ⟨h1, h2, h3, _⟩ := h
   refine ⟨?_, ?_, h3, hcap⟩
   · intro i
@@ -429,9 +433,9 @@ theorem GI_upd {n jobs ready threads avail total N m} (h : GI n jobs ready threa
     · subst hi; simpa using hpc hN
     · simp [upd, hi]; exact h2 i hN
 
-theorem PJ_cases {m j jb a b c} (h : PJ m j jb a b c) :
-    (KJ jb a b c ∧ ∀ jb' a' b' c', KJ jb' a' b' c' → PJ m j jb' a' b' c') ∨
-    (∃ e1 e2, KF e1 e2 jb a b c ∧ m = some (j, e1, e2) ∧ ∀ jb' a' b' c', KF e1 e2 jb' a' b' c' → PJ m j jb' a' b' c') := by
+theorem PJ_cases {m j jb a b c} (h : PJ ar m j jb a b c) :
+    (KJ ar jb a b c ∧ ∀ jb' a' b' c', KJ ar jb' a' b' c' → PJ ar m j jb' a' b' c') ∨
+    (∃ e1 e2, KF e1 e2 jb a b c ∧ m = some (j, e1, e2) ∧ ∀ jb' a' b' c', KF e1 e2 jb' a' b' c' → PJ ar m j jb' a' b' c') := by
   unfold PJ at h
   split at h
   · next j0 e1 e2 =>
@@ -444,8 +448,8 @@ theorem check_eq (fl : Flags) (s : St) (j d : Nat) :
     s.check fl j d = s.put j (depChanged fl (s.jobs j) d (s.status ((s.jobs j).deps.getD d default).origin)).1
       (if (depChanged fl (s.jobs j) d (s.status ((s.jobs j).deps.getD d default).origin)).2 = true then [.wake j] else []) := rfl
 
-theorem check_GInv {fl s N m} (j d : Nat) (h : GInv s N m) (hm : ∀ j0 e1 e2, m = some (j0, e1, e2) → e1 = true) :
-    GInv (s.check fl j d) N m := by
+theorem check_GInv {fl s N m} (j d : Nat) (h : GInv ar s N m) (hm : ∀ j0 e1 e2, m = some (j0, e1, e2) → e1 = true) :
+    GInv ar (s.check fl j d) N m := by
   rw [check_eq]
   generalize (s.status ((s.jobs j).deps.getD d default).origin) = st
   have hpc := depChanged_pc fl (s.jobs j) d st
@@ -467,17 +471,17 @@ theorem check_GInv {fl s N m} (j d : Nat) (h : GInv s N m) (hm : ∀ j0 e1 e2, m
   · exact CapC_same j _ (heldTok_eq hheld hor) h.2.2.2
 
 theorem PJ_fly_other {j e1 e2 i jb a b c} (m' : Option (Nat × Bool × Bool)) (hm' : m' = none ∨ ∃ e1' e2', m' = some (j, e1', e2'))
-    (hi : i ≠ j) (h : PJ (some (j, e1, e2)) i jb a b c) : PJ m' i jb a b c := by
+    (hi : i ≠ j) (h : PJ ar (some (j, e1, e2)) i jb a b c) : PJ ar m' i jb a b c := by
   rcases hm' with rfl | ⟨e1', e2', rfl⟩ <;> simpa [PJ, hi] using h
 
-theorem fly_fresh {s N j e1 e2} (h : GInv s N (some (j, e1, e2))) : ¬ N ≤ j := by
+theorem fly_fresh {s N j e1 e2} (h : GInv ar s N (some (j, e1, e2))) : ¬ N ≤ j := by
   intro hN
   have h1 := h.1 j
   have h2 := h.2.1 j hN
   simp [PJ, KF] at h1
   exact h1.2.2.2.2.1 h2
 
-theorem fly_KF {s N j e1 e2} (h : GInv s N (some (j, e1, e2))) :
+theorem fly_KF {s N j e1 e2} (h : GInv ar s N (some (j, e1, e2))) :
     KF e1 e2 (s.jobs j) 0 0 0 ∧ nS s.ready j = 0 ∧ nW s.ready j = 0 ∧ nR s.ready j = 0 ∧ nT s.threads j = 0 := by
   have h1 := h.1 j
   simp [PJ, KF] at h1 ⊢
@@ -485,22 +489,22 @@ theorem fly_KF {s N j e1 e2} (h : GInv s N (some (j, e1, e2))) :
   exact ⟨d, a, b, c⟩
 
 /-- the flying job lands: its record gets a fresh `pc` together with the matching continuation. -/
-theorem land {s N j e1 e2} (h : GInv s N (some (j, e1, e2))) (jb' : Job) (cbs : List Cb) (ths : List (TK × Nat))
+theorem land {s N j e1 e2} (h : GInv ar s N (some (j, e1, e2))) (jb' : Job) (cbs : List Cb) (ths : List (TK × Nat))
     (hheld : jb'.held = (s.jobs j).held) (hor : jb'.deps.map (·.origin) = (s.jobs j).deps.map (·.origin))
     (hother : ∀ i, i ≠ j → nS cbs i = 0 ∧ nW cbs i = 0 ∧ nR cbs i = 0 ∧ nT ths i = 0)
-    (hK : KJ jb' (nS cbs j) (nW cbs j) (nR cbs j + nT ths j)) :
-    GInv (s.put j jb' cbs ths) N none := by
+    (hK : KJ ar jb' (nS cbs j) (nW cbs j) (nR cbs j + nT ths j)) :
+    GInv ar (s.put j jb' cbs ths) N none := by
   obtain ⟨_, a, b, c, d⟩ := fly_KF h
   refine GI_upd h none j jb' cbs ths s.avail (fun hN => absurd hN (fly_fresh h)) hother
     (fun i hi _ _ _ _ h' => PJ_fly_other none (Or.inl rfl) hi h') ?_ (CapC_same j _ (heldTok_eq hheld hor) h.2.2.2)
   simp [PJ, a, b, c, d]; exact hK
 
 /-- the flying job stays in flight (no continuation registered). -/
-theorem stay {s N j e1 e2} (h : GInv s N (some (j, e1, e2))) (e1' e2' : Bool) (jb' : Job) (cbs : List Cb)
+theorem stay {s N j e1 e2} (h : GInv ar s N (some (j, e1, e2))) (e1' e2' : Bool) (jb' : Job) (cbs : List Cb)
     (hcbs : ∀ cb ∈ cbs, cb.inert = true)
     (hheld : jb'.held = (s.jobs j).held) (hor : jb'.deps.map (·.origin) = (s.jobs j).deps.map (·.origin))
     (hK : KF e1' e2' jb' 0 0 0) :
-    GInv (s.put j jb' cbs) N (some (j, e1', e2')) := by
+    GInv ar (s.put j jb' cbs) N (some (j, e1', e2')) := by
   obtain ⟨_, a, b, c, d⟩ := fly_KF h
   have i1 := nS_inert hcbs; have i2 := nW_inert hcbs; have i3 := nR_inert hcbs
   refine GI_upd h (some (j, e1', e2')) j jb' cbs [] s.avail (fun hN => absurd hN (fly_fresh h))
@@ -508,12 +512,12 @@ theorem stay {s N j e1 e2} (h : GInv s N (some (j, e1, e2))) (e1' e2' : Bool) (j
     (fun i hi _ _ _ _ h' => PJ_fly_other _ (Or.inr ⟨_, _, rfl⟩) hi h') ?_ (CapC_same j _ (heldTok_eq hheld hor) h.2.2.2)
   simp [PJ, a, b, c, d, i1, i2, i3]; exact hK
 
-theorem finish_GInv {s N j} (h : GInv s N (some (j, true, true))) : GInv (s.finish j) N none := by
+theorem finish_GInv {s N j} (h : GInv ar s N (some (j, true, true))) : GInv ar (s.finish j) N none := by
   obtain ⟨hk, _⟩ := fly_KF h
   unfold St.finish
   simp only []
-  have key : ∀ s' : St, GInv s' N (some (j, true, true)) → s'.jobs j = s.jobs j →
-      GInv (s'.put j { (s.jobs j) with pc := .doneHandler } [] [(.doneH, j)]) N none := by
+  have key : ∀ s' : St, GInv ar s' N (some (j, true, true)) → s'.jobs j = s.jobs j →
+      GInv ar (s'.put j { (s.jobs j) with pc := .doneHandler } [] [(.doneH, j)]) N none := by
     intro s' h' hj
     refine land h' _ _ _ (by rw [hj]) (by rw [hj]) ?_ ?_
     · intro i hi; have : ¬ j = i := fun e => hi e.symm; simp [this]
@@ -523,7 +527,7 @@ theorem finish_GInv {s N j} (h : GInv s N (some (j, true, true))) : GInv (s.fini
   · exact key _ h rfl
   · exact key _ h rfl
 
-theorem loopHead_GInv {s N j} (h : GInv s N (some (j, true, true))) : GInv (s.loopHead j) N none := by
+theorem loopHead_GInv {s N j} (h : GInv ar s N (some (j, true, true))) : GInv ar (s.loopHead j) N none := by
   obtain ⟨hk, _⟩ := fly_KF h
   simp [KF] at hk
   have hne : ∀ i, i ≠ j → ¬ j = i := fun i hi e => hi e.symm
@@ -544,8 +548,8 @@ theorem loopHead_GInv {s N j} (h : GInv s N (some (j, true, true))) : GInv (s.lo
       · simp [KJ, PC.res, PC.holds, PC.run, hk]
 
 /-! ### taking a callback off the ready queue -/
-theorem pop_inert {n jobs cb rest threads avail total N} (h : GI n jobs (cb :: rest) threads avail total N none)
-    (hcb : cb.inert = true) : GI n jobs rest threads avail total N none := by
+theorem pop_inert {n jobs cb rest threads avail total N} (h : GI ar n jobs (cb :: rest) threads avail total N none)
+    (hcb : cb.inert = true) : GI ar n jobs rest threads avail total N none := by
   refine ⟨fun i => ?_, h.2⟩
   have := h.1 i
   have a : nS [cb] i = 0 := nS_inert (by simpa using hcb) i
@@ -554,8 +558,8 @@ theorem pop_inert {n jobs cb rest threads avail total N} (h : GI n jobs (cb :: r
   simp at a b c
   simpa [PJ, a, b, c] using this
 
-theorem pop_start {n jobs j rest threads avail total N} (h : GI n jobs (.start j :: rest) threads avail total N none) :
-    GI n jobs rest threads avail total N (some (j, true, true)) ∧ (jobs j).pc = .created := by
+theorem pop_start {n jobs j rest threads avail total N} (h : GI ar n jobs (.start j :: rest) threads avail total N none) :
+    GI ar n jobs rest threads avail total N (some (j, true, true)) ∧ (jobs j).pc = .created := by
   have hj := h.1 j
   simp [PJ, KJ] at hj
   obtain ⟨h1, h2, h3, h4, h5, h6, h7⟩ := hj
@@ -572,8 +576,8 @@ theorem pop_start {n jobs j rest threads avail total N} (h : GI n jobs (.start j
     have hne : ¬ j = i := fun e => hi e.symm
     simpa [PJ, hi, hne] using this
 
-theorem pop_wake {n jobs j rest threads avail total N} (h : GI n jobs (.wake j :: rest) threads avail total N none) :
-    GI n jobs rest threads avail total N (some (j, true, true)) ∧ (jobs j).pc = .evtWait := by
+theorem pop_wake {n jobs j rest threads avail total N} (h : GI ar n jobs (.wake j :: rest) threads avail total N none) :
+    GI ar n jobs rest threads avail total N (some (j, true, true)) ∧ (jobs j).pc = .evtWait := by
   have hj := h.1 j
   simp [PJ, KJ] at hj
   obtain ⟨h1, h2, h3, h4, h5, h6, h7⟩ := hj
@@ -590,14 +594,14 @@ theorem pop_wake {n jobs j rest threads avail total N} (h : GI n jobs (.wake j :
     have hne : ¬ j = i := fun e => hi e.symm
     simpa [PJ, hi, hne] using this
 
-theorem pop_resume {n jobs j rest threads avail total N} (h : GI n jobs (.resume j :: rest) threads avail total N none) :
-    GI n jobs rest threads avail total N (some (j, false, false)) ∧ (jobs j).pc.res = true ∧
+theorem pop_resume {n jobs j rest threads avail total N} (h : GI ar n jobs (.resume j :: rest) threads avail total N none) :
+    GI ar n jobs rest threads avail total N (some (j, false, false)) ∧ (jobs j).pc.res = true ∧
       ((jobs j).held ≠ [] → (jobs j).pc.holds = true) ∧
       ((jobs j).pc.run = true → (jobs j).held = List.range (jobs j).deps.length) ∧
       ((jobs j).state = .running → (jobs j).pc.run = true) := by
   have hj := h.1 j
   simp [PJ, KJ] at hj
-  obtain ⟨h1, h2, h3, h4, h5, h6, h7⟩ := hj
+  obtain ⟨h1, h2, h3, h4, h5, h6, h7, _⟩ := hj
   have hpc : (jobs j).pc.res = true := by
     by_cases hp : (jobs j).pc.res = true
     · exact hp
@@ -620,8 +624,8 @@ theorem pop_resume {n jobs j rest threads avail total N} (h : GI n jobs (.resume
     simpa [PJ, hi, hne] using this
 
 /-! ### callbacks -/
-theorem registerDeps_GInv {fl s N m} (j k d : Nat) (h : GInv s N m) (hm : ∀ j0 e1 e2, m = some (j0, e1, e2) → e1 = true) :
-    GInv (St.registerDeps fl s j k d) N m := by
+theorem registerDeps_GInv {fl s N m} (j k d : Nat) (h : GInv ar s N m) (hm : ∀ j0 e1 e2, m = some (j0, e1, e2) → e1 = true) :
+    GInv ar (St.registerDeps fl s j k d) N m := by
   induction k generalizing s d with
   | zero => exact h
   | succ k ih =>
@@ -631,7 +635,7 @@ theorem registerDeps_GInv {fl s N m} (j k d : Nat) (h : GInv s N m) (hm : ∀ j0
     apply check_GInv _ _ _ hm
     split <;> exact h
 
-theorem startJob_GInv {fl s N j} (h : GInv s N (some (j, true, true))) : GInv (s.startJob fl j) N none := by
+theorem startJob_GInv {fl s N j} (h : GInv ar s N (some (j, true, true))) : GInv ar (s.startJob fl j) N none := by
   obtain ⟨hk, _⟩ := fly_KF h
   simp [KF] at hk
   unfold St.startJob
@@ -639,10 +643,10 @@ theorem startJob_GInv {fl s N j} (h : GInv s N (some (j, true, true))) : GInv (s
   apply loopHead_GInv
   have hm : ∀ j0 e1 e2, some (j, true, true) = some (j0, e1, e2) → e1 = true := by
     intro j0 e1 e2 e; simp at e; exact e.2.1
-  have h1 : GInv (s.put j { (s.jobs j) with state := .waiting, event := false, sleeping := false }) N (some (j, true, true)) :=
+  have h1 : GInv ar (s.put j { (s.jobs j) with state := .waiting, event := false, sleeping := false }) N (some (j, true, true)) :=
     stay h true true _ [] (by simp) rfl rfl (by simp [KF, hk])
-  have key : ∀ s2 : St, GInv s2 N (some (j, true, true)) →
-      GInv (if (s2.jobs j).marker = true then s2.put j { (s2.jobs j) with state := .done } else s2) N (some (j, true, true)) := by
+  have key : ∀ s2 : St, GInv ar s2 N (some (j, true, true)) →
+      GInv ar (if (s2.jobs j).marker = true then s2.put j { (s2.jobs j) with state := .done } else s2) N (some (j, true, true)) := by
     intro s2 h2
     split
     · obtain ⟨hk2, _⟩ := fly_KF h2
@@ -655,7 +659,7 @@ theorem startJob_GInv {fl s N j} (h : GInv s N (some (j, true, true))) : GInv (s
   · apply registerDeps_GInv _ _ _ _ hm
     exact stay h1 true true _ [] (by simp) (by simp [St.put]) (by simp [St.put]) (by simp [KF, hk])
 
-theorem wake_GInv {fl s N j} (h : GInv s N (some (j, true, true))) : GInv (s.runCb fl (.wake j)) N none := by
+theorem wake_GInv {fl s N j} (h : GInv ar s N (some (j, true, true))) : GInv ar (s.runCb fl (.wake j)) N none := by
   obtain ⟨hk, _⟩ := fly_KF h
   simp [KF] at hk
   have hne : ∀ i, i ≠ j → ¬ j = i := fun i hi e => hi e.symm
@@ -675,14 +679,14 @@ theorem eventSet_nosleep (jb : Job) (h : jb.sleeping = false) :
   · simp [h]
   · simp [h]
 
-theorem GI_ready_inert {n jobs ready threads avail total N m} (h : GI n jobs ready threads avail total N m)
-    (l : List Cb) (hl : ∀ cb ∈ l, cb.inert = true) : GI n jobs (ready ++ l) threads avail total N m := by
+theorem GI_ready_inert {n jobs ready threads avail total N m} (h : GI ar n jobs ready threads avail total N m)
+    (l : List Cb) (hl : ∀ cb ∈ l, cb.inert = true) : GI ar n jobs (ready ++ l) threads avail total N m := by
   refine ⟨fun i => ?_, h.2⟩
   simpa [nS_inert hl, nW_inert hl, nR_inert hl] using h.1 i
 
 /-- releasing everything held by the flying job. -/
-theorem releaseAll_GInv {s N j e1} (h : GInv s N (some (j, e1, false))) :
-    GInv (s.releaseAll j (s.jobs j).held) N (some (j, e1, true)) ∧
+theorem releaseAll_GInv {s N j e1} (h : GInv ar s N (some (j, e1, false))) :
+    GInv ar (s.releaseAll j (s.jobs j).held) N (some (j, e1, true)) ∧
     ((s.releaseAll j (s.jobs j).held).jobs j) = { (s.jobs j) with held := [] } := by
   obtain ⟨notes, hn, he⟩ := releaseAll_eq s j (s.jobs j).held
   rw [he]
@@ -704,11 +708,11 @@ theorem releaseAll_GInv {s N j e1} (h : GInv s N (some (j, e1, false))) :
     · intro t; simp [heldTok]
     · intro t; have := (h.2.2.2 t).2; omega
 
-theorem resume_abort_GInv {fl s N j} (h : GInv s N (some (j, false, false))) (hpc : (s.jobs j).pc = .lockExitAbort)
-    (hst : (s.jobs j).state = .running → (s.jobs j).pc.run = true) : GInv (s.resume fl j) N none := by
+theorem resume_abort_GInv {fl s N j} (h : GInv ar s N (some (j, false, false))) (hpc : (s.jobs j).pc = .lockExitAbort)
+    (hst : (s.jobs j).state = .running → (s.jobs j).pc.run = true) : GInv ar (s.resume fl j) N none := by
   have hnr : (s.jobs j).state ≠ .running := by
     intro e; have := hst e; rw [hpc] at this; simp [PC.run] at this
-  have h1 : GInv s N (some (j, true, false)) := by
+  have h1 : GInv ar s N (some (j, true, false)) := by
     refine ⟨fun i => ?_, h.2⟩
     have := h.1 i
     by_cases hi : i = j
@@ -730,8 +734,8 @@ theorem resume_abort_GInv {fl s N j} (h : GInv s N (some (j, false, false))) (hp
     exact ⟨rfl, rfl, rfl, e2, by rw [e4]; exact hk.2.1, fun _ => by rw [e5]; simp, fun _ => by rw [e3]; exact hk.2.2.2⟩
   · exact stay h2 true true _ _ (by simp) rfl rfl (by simp [KF, hk])
 
-theorem resume_code_GInv {fl s N j} (h : GInv s N (some (j, false, false))) (hpc : (s.jobs j).pc = .codeWait) :
-    GInv (s.resume fl j) N none := by
+theorem resume_code_GInv {fl s N j} (h : GInv ar s N (some (j, false, false))) (hpc : (s.jobs j).pc = .codeWait) :
+    GInv ar (s.resume fl j) N none := by
   obtain ⟨h2, hj⟩ := releaseAll_GInv h
   unfold St.resume
   simp only [hpc]
@@ -743,9 +747,9 @@ theorem resume_code_GInv {fl s N j} (h : GInv s N (some (j, false, false))) (hpc
   simp [KF, hk]
   split <;> simp
 
-theorem resume_run_GInv {fl s N j} (h : GInv s N (some (j, false, false))) (hpc : (s.jobs j).pc = .lockExitRun)
+theorem resume_run_GInv {fl s N j} (h : GInv ar s N (some (j, false, false))) (hpc : (s.jobs j).pc = .lockExitRun)
     (hrun : (s.jobs j).pc.run = true → (s.jobs j).held = List.range (s.jobs j).deps.length) :
-    GInv (s.resume fl j) N none := by
+    GInv ar (s.resume fl j) N none := by
   obtain ⟨hk, _⟩ := fly_KF h
   simp [KF] at hk
   have hne : ∀ i, i ≠ j → ¬ j = i := fun i hi e => hi e.symm
@@ -756,9 +760,9 @@ theorem resume_run_GInv {fl s N j} (h : GInv s N (some (j, false, false))) (hpc 
   · intro i hi; simp [hne i hi]
   · simp [KJ, PC.res, PC.holds, PC.run, hk, hr]
 
-theorem resume_done_GInv {fl s N j} (h : GInv s N (some (j, false, false))) (hpc : (s.jobs j).pc = .doneHandler)
+theorem resume_done_GInv {fl s N j} (h : GInv ar s N (some (j, false, false))) (hpc : (s.jobs j).pc = .doneHandler)
     (hh : (s.jobs j).held ≠ [] → (s.jobs j).pc.holds = true)
-    (hst : (s.jobs j).state = .running → (s.jobs j).pc.run = true) : GInv (s.resume fl j) N none := by
+    (hst : (s.jobs j).state = .running → (s.jobs j).pc.run = true) : GInv ar (s.resume fl j) N none := by
   obtain ⟨hk, _⟩ := fly_KF h
   simp [KF] at hk
   have hheld : (s.jobs j).held = [] := by
@@ -769,8 +773,8 @@ theorem resume_done_GInv {fl s N j} (h : GInv s N (some (j, false, false))) (hpc
     intro e; have := hst e; rw [hpc] at this; simp [PC.run] at this
   unfold St.resume
   simp only [hpc]
-  have key : ∀ s3 : St, GInv s3 N (some (j, false, false)) → s3.jobs j = s.jobs j →
-      GInv (s3.put j { (s3.jobs j) with pc := .finished (s3.jobs j).state }) N none := by
+  have key : ∀ s3 : St, GInv ar s3 N (some (j, false, false)) → s3.jobs j = s.jobs j →
+      GInv ar (s3.put j { (s3.jobs j) with pc := .finished (s3.jobs j).state }) N none := by
     intro s3 h3 hj
     refine land h3 _ _ _ rfl rfl (by intro i hi; simp) ?_
     rw [hj]
@@ -783,9 +787,10 @@ theorem resume_done_GInv {fl s N j} (h : GInv s N (some (j, false, false))) (hpc
     · intro cb hcb; simp at hcb; obtain ⟨a, b, _, rfl⟩ := hcb; rfl
   · split <;> rfl
 
-theorem resume_enter_GInv {fl s N j} (h : GInv s N (some (j, false, false))) (hpc : (s.jobs j).pc = .lockEnter)
+theorem resume_enter_GInv {fl s N j} (har : ar = true → fl.abortReleases = true)
+    (h : GInv ar s N (some (j, false, false))) (hpc : (s.jobs j).pc = .lockEnter)
     (hh : (s.jobs j).held ≠ [] → (s.jobs j).pc.holds = true)
-    (hst : (s.jobs j).state = .running → (s.jobs j).pc.run = true) : GInv (s.resume fl j) N none := by
+    (hst : (s.jobs j).state = .running → (s.jobs j).pc.run = true) : GInv ar (s.resume fl j) N none := by
   obtain ⟨hk, a, b, c, d⟩ := fly_KF h
   simp [KF] at hk
   have hheld : (s.jobs j).held = [] := by
@@ -828,19 +833,30 @@ theorem resume_enter_GInv {fl s N j} (h : GInv s N (some (j, false, false))) (hp
       (by simp [PJ, KF, a, b, c, d, hk, hnr]) (hcap _ rfl rfl)
     have hm : ∀ j0 e1 e2, some (j, true, false) = some (j0, e1, e2) → e1 = true := by
       intro j0 e1 e2 e; simp at e; exact e.2.1
-    have g' : GInv (({ s with avail := av' }).put j { (s.jobs j) with held := acq }) N (some (j, true, false)) := g
-    have g2 := check_GInv (fl := fl) j d' g' hm
+    have g' : GInv ar (({ s with avail := av' }).put j { (s.jobs j) with held := acq }) N (some (j, true, false)) := g
+    have hrel : ∀ sa' : St, GInv ar sa' N (some (j, true, false)) →
+        ∃ e2, GInv ar (if fl.abortReleases = true then sa'.releaseAll j (sa'.jobs j).held else sa') N (some (j, true, e2)) ∧
+          (ar = true → e2 = true) := by
+      intro sa' gs
+      by_cases hf : fl.abortReleases = true
+      · rw [if_pos hf]; exact ⟨true, (releaseAll_GInv gs).1, fun _ => rfl⟩
+      · rw [if_neg hf]; exact ⟨false, gs, fun e => absurd (har e) hf⟩
+    obtain ⟨e2, g1, he2⟩ := hrel _ g'
+    have hm' : ∀ j0 e1 e2', some (j, true, e2) = some (j0, e1, e2') → e1 = true := by
+      intro j0 e1 e2' e; simp at e; exact e.2.1
+    have g2 := check_GInv (fl := fl) j d' g1 hm'
     obtain ⟨hk2, _⟩ := fly_KF g2
     simp [KF] at hk2
     refine land g2 _ _ _ rfl rfl (by intro i hi; simp [hne i hi]) ?_
     simp [KJ, PC.res, PC.holds, PC.run, hk2]
+    intro e; exact hk2.2.2.2 (he2 e)
 
-theorem resume_GInv {fl s N j} (h : GInv s N (some (j, false, false))) (hres : (s.jobs j).pc.res = true)
+theorem resume_GInv {fl s N j} (har : ar = true → fl.abortReleases = true) (h : GInv ar s N (some (j, false, false))) (hres : (s.jobs j).pc.res = true)
     (hh : (s.jobs j).held ≠ [] → (s.jobs j).pc.holds = true)
     (hrun : (s.jobs j).pc.run = true → (s.jobs j).held = List.range (s.jobs j).deps.length)
-    (hst : (s.jobs j).state = .running → (s.jobs j).pc.run = true) : GInv (s.resume fl j) N none := by
+    (hst : (s.jobs j).state = .running → (s.jobs j).pc.run = true) : GInv ar (s.resume fl j) N none := by
   cases hpc : (s.jobs j).pc with
-  | lockEnter => exact resume_enter_GInv h hpc hh hst
+  | lockEnter => exact resume_enter_GInv har h hpc hh hst
   | lockExitAbort => exact resume_abort_GInv h hpc hst
   | lockExitRun => exact resume_run_GInv h hpc hrun
   | codeWait => exact resume_code_GInv h hpc
@@ -850,23 +866,25 @@ theorem resume_GInv {fl s N j} (h : GInv s N (some (j, false, false))) (hres : (
   | evtWait => rw [hpc] at hres; simp [PC.res] at hres
   | finished r => rw [hpc] at hres; simp [PC.res] at hres
 
-/-- the invariant at rest (between two steps). -/
-def Inv (s : St) (N : Nat) : Prop := GInv s N none
+/-- the invariant at rest (between two steps); `ar = true` adds: a job at `lockExitAbort` holds nothing. -/
+def InvA (ar : Bool) (s : St) (N : Nat) : Prop := GInv ar s N none
+/-- the flag-independent part (`ar = false`). -/
+def Inv (s : St) (N : Nat) : Prop := InvA false s N
 
 theorem hm_none : ∀ (j0 : Nat) (e1 e2 : Bool), (none : Option (Nat × Bool × Bool)) = some (j0, e1, e2) → e1 = true := by
   intro _ _ _ e; simp at e
 
-theorem step_Inv {fl s N} (h : Inv s N) : Inv (s.step fl) N := by
+theorem step_Inv {fl s N} (har : ar = true → fl.abortReleases = true) (h : InvA ar s N) : InvA ar (s.step fl) N := by
   unfold St.step
   split
   · exact h
   · next cb rest hr =>
-    have h' : GI s.n s.jobs (cb :: rest) s.threads s.avail s.total N none := by
-      have := h; unfold Inv GInv at this; rw [hr] at this; exact this
+    have h' : GI ar s.n s.jobs (cb :: rest) s.threads s.avail s.total N none := by
+      have := h; unfold InvA GInv at this; rw [hr] at this; exact this
     cases cb with
     | register j =>
-      have h0 : GInv { s with ready := rest } N none := pop_inert h' rfl
-      show GInv (St.register fl { s with ready := rest } j) N none
+      have h0 : GInv ar { s with ready := rest } N none := pop_inert h' rfl
+      show GInv ar (St.register fl { s with ready := rest } j) N none
       unfold St.register
       simp only []
       repeat' split
@@ -879,13 +897,13 @@ theorem step_Inv {fl s N} (h : Inv s N) : Inv (s.step fl) N := by
       exact wake_GInv (s := { s with ready := rest }) h0
     | resume j =>
       obtain ⟨h0, a, b, c, d⟩ := pop_resume h'
-      exact resume_GInv (s := { s with ready := rest }) h0 a b c d
+      exact resume_GInv (s := { s with ready := rest }) har h0 a b c d
     | check j d =>
-      have h0 : GInv { s with ready := rest } N none := pop_inert h' rfl
+      have h0 : GInv ar { s with ready := rest } N none := pop_inert h' rfl
       exact check_GInv j d h0 hm_none
     | notifyCheck j d =>
-      have h0 : GInv { s with ready := rest } N none := pop_inert h' rfl
-      show GInv (St.runCb fl { s with ready := rest } (.notifyCheck j d)) N none
+      have h0 : GInv ar { s with ready := rest } N none := pop_inert h' rfl
+      show GInv ar (St.runCb fl { s with ready := rest } (.notifyCheck j d)) N none
       unfold St.runCb
       simp only []
       split
@@ -894,15 +912,15 @@ theorem step_Inv {fl s N} (h : Inv s N) : Inv (s.step fl) N := by
         · exact h0
       · exact check_GInv j d h0 hm_none
     | waiterRun =>
-      have h0 : GInv { s with ready := rest } N none := pop_inert h' rfl
-      show GInv (St.waiterRun { s with ready := rest }) N none
+      have h0 : GInv ar { s with ready := rest } N none := pop_inert h' rfl
+      show GInv ar (St.waiterRun { s with ready := rest }) N none
       unfold St.waiterRun
       split <;> exact h0
 
-theorem steps_Inv {fl s N} (k : Nat) (h : Inv s N) : Inv (St.steps fl s k) N := by
+theorem steps_Inv {fl s N} (har : ar = true → fl.abortReleases = true) (k : Nat) (h : InvA ar s N) : InvA ar (St.steps fl s k) N := by
   induction k generalizing s with
   | zero => exact h
-  | succ k ih => exact ih (step_Inv h)
+  | succ k ih => exact ih (step_Inv har h)
 
 /-! ### `n` is changed by `submit` only -/
 @[simp] theorem put_n (s : St) (j jb cbs ths) : (s.put j jb cbs ths).n = s.n := rfl
@@ -926,7 +944,9 @@ theorem steps_Inv {fl s N} (k : Nat) (h : Inv s N) : Inv (St.steps fl s k) N := 
 @[simp] theorem resume_n (fl s j) : (St.resume fl s j).n = s.n := by
   unfold St.resume; simp only []
   split
-  · split <;> simp
+  · split
+    · simp; split <;> simp
+    · simp
   all_goals first | rfl | (simp; done) | (simp; split <;> rfl)
 @[simp] theorem runCb_n (fl s cb) : (St.runCb fl s cb).n = s.n := by
   cases cb <;> simp [St.runCb]
@@ -947,18 +967,18 @@ theorem steps_Inv {fl s N} (k : Nat) (h : Inv s N) : Inv (St.steps fl s k) N := 
   | succ k ih => unfold St.steps; rw [ih]; simp
 
 /-! ### events -/
-theorem GI_N_mono {n jobs ready threads avail total N m} (h : GI n jobs ready threads avail total N m)
-    (N' : Nat) (h1 : N ≤ N') (h2 : N' ≤ n) : GI n jobs ready threads avail total N' m :=
+theorem GI_N_mono {n jobs ready threads avail total N m} (h : GI ar n jobs ready threads avail total N m)
+    (N' : Nat) (h1 : N ≤ N') (h2 : N' ≤ n) : GI ar n jobs ready threads avail total N' m :=
   ⟨h.1, fun j hj => h.2.1 j (by omega), h2, h.2.2.2⟩
 
-theorem KJ_none {jb : Job} {a b c : Nat} (h : KJ jb a b c) (hpc : jb.pc = .none) :
+theorem KJ_none {jb : Job} {a b c : Nat} (h : KJ ar jb a b c) (hpc : jb.pc = .none) :
     a = 0 ∧ b = 0 ∧ c = 0 ∧ jb.sleeping = false ∧ jb.held = [] ∧ jb.state ≠ .running := by
   simp [KJ, hpc, PC.res, PC.holds, PC.run] at h
   obtain ⟨h1, h2, h3, h4, h5, h6⟩ := h
   exact ⟨h1, h2, h3, h4, h5, h6⟩
 
-theorem submit_pre {s N} (h : Inv s N) (jb : Job) (hjb : KJ jb 0 0 0) (hpc : jb.pc = .none) (hheld : jb.held = []) :
-    GI (s.n + 1) (upd s.jobs s.n jb) (s.ready ++ [.register s.n]) s.threads s.avail s.total N none := by
+theorem submit_pre {s N} (h : InvA ar s N) (jb : Job) (hjb : KJ ar jb 0 0 0) (hpc : jb.pc = .none) (hheld : jb.held = []) :
+    GI ar (s.n + 1) (upd s.jobs s.n jb) (s.ready ++ [.register s.n]) s.threads s.avail s.total N none := by
   obtain ⟨h1, h2, h3, h4⟩ := h
   refine ⟨fun i => ?_, fun i hi => ?_, by omega, fun t => ?_⟩
   · by_cases hi : i = s.n
@@ -996,8 +1016,8 @@ theorem apply_submit_eq (fl : Flags) (s : St) (ident deps code marker) :
     s.apply fl (.submit ident deps code marker) =
       submitPost s.n (St.steps fl (submitPre s (mkJob s ident deps code marker)) (s.ready.length + 1)) := rfl
 
-theorem submitPost_Inv {s2 N j} (h2 : Inv s2 N) (hN : N ≤ j) (hn : s2.n = j + 1) : Inv (submitPost j s2) (j + 1) := by
-  have h3 : GInv s2 (j + 1) none := GI_N_mono h2 (j + 1) (by omega) (by omega)
+theorem submitPost_Inv {s2 N j} (h2 : InvA ar s2 N) (hN : N ≤ j) (hn : s2.n = j + 1) : InvA ar (submitPost j s2) (j + 1) := by
+  have h3 : GInv ar s2 (j + 1) none := GI_N_mono h2 (j + 1) (by omega) (by omega)
   unfold submitPost
   split
   · exact h3
@@ -1010,9 +1030,9 @@ theorem submitPost_Inv {s2 N j} (h2 : Inv s2 N) (hN : N ≤ j) (hn : s2.n = j + 
       simp [this]
     · simp [PJ, KJ, a, b, c'.1, c'.2, d, e, f, PC.res, PC.holds, PC.run]
 
-theorem apply_Inv {fl s N} (ev : Ev) (h : Inv s N) : ∃ N', Inv (s.apply fl ev) N' := by
+theorem apply_Inv {fl s N} (har : ar = true → fl.abortReleases = true) (ev : Ev) (h : InvA ar s N) : ∃ N', InvA ar (s.apply fl ev) N' := by
   cases ev with
-  | step => exact ⟨N, step_Inv h⟩
+  | step => exact ⟨N, step_Inv har h⟩
   | wait => exact ⟨N, GI_ready_inert h [.waiterRun] (by simp [Cb.inert])⟩
   | deliver k =>
     refine ⟨N, ?_⟩
@@ -1029,18 +1049,18 @@ theorem apply_Inv {fl s N} (ev : Ev) (h : Inv s N) : ∃ N', Inv (s.apply fl ev)
       have r3 : (if Cb.resume j = Cb.resume i then 1 else 0) = (if j = i then 1 else 0) := by simp
       rw [r1, r2, r3]
       have : nR s.ready i + (0 + if j = i then 1 else 0) + nT (s.threads.eraseIdx k) i = nR s.ready i + nT s.threads i := by omega
-      rw [this]; simpa using ‹KJ _ _ _ _›
+      rw [this]; simpa using ‹KJ ar _ _ _ _›
     · exact h
   | submit ident deps code marker =>
     refine ⟨s.n + 1, ?_⟩
     have hN : N ≤ s.n := h.2.2.1
     rw [apply_submit_eq]
-    have h1 : Inv (submitPre s (mkJob s ident deps code marker)) N :=
+    have h1 : InvA ar (submitPre s (mkJob s ident deps code marker)) N :=
       submit_pre h _ (by simp [mkJob, KJ, PC.res, PC.holds, PC.run]) rfl rfl
-    have h2 := steps_Inv (fl := fl) (s.ready.length + 1) h1
+    have h2 := steps_Inv (fl := fl) har (s.ready.length + 1) h1
     exact submitPost_Inv h2 hN (by simp [submitPre])
 
-theorem init_Inv (totals : List Nat) : Inv (St.init totals) 0 := by
+theorem init_Inv (totals : List Nat) : InvA ar (St.init totals) 0 := by
   refine ⟨fun i => ?_, fun _ _ => rfl, Nat.le_refl _, fun t => ?_⟩
   · simp [PJ, KJ, St.init, PC.res, PC.holds, PC.run]
   · simp [St.init, sumTo]
@@ -1050,16 +1070,22 @@ theorem init_Inv (totals : List Nat) : Inv (St.init totals) 0 := by
 def Reachable (fl : Flags) (totals : List Nat) (s : St) : Prop :=
   ∃ evs : List Ev, s = evs.foldl (St.apply fl) (St.init totals)
 
-theorem foldl_Inv {fl} (evs : List Ev) {s N} (h : Inv s N) : ∃ N', Inv (evs.foldl (St.apply fl) s) N' := by
+theorem foldl_Inv {fl} (har : ar = true → fl.abortReleases = true) (evs : List Ev) {s N} (h : InvA ar s N) : ∃ N', InvA ar (evs.foldl (St.apply fl) s) N' := by
   induction evs generalizing s N with
   | nil => exact ⟨N, h⟩
   | cons ev evs ih =>
-    obtain ⟨N', h'⟩ := apply_Inv (fl := fl) ev h
+    obtain ⟨N', h'⟩ := apply_Inv (fl := fl) har ev h
     exact ih h'
+
+/-- every reachable state satisfies the invariant, with the `lockExitAbort`-holds-nothing part exactly when
+    the source has the `abortReleases` repair. -/
+theorem Reachable.invA {fl totals s} (h : Reachable fl totals s) : ∃ N, InvA fl.abortReleases s N := by
+  obtain ⟨evs, rfl⟩ := h
+  exact foldl_Inv (fun e => e) evs (init_Inv totals)
 
 theorem Reachable.inv {fl totals s} (h : Reachable fl totals s) : ∃ N, Inv s N := by
   obtain ⟨evs, rfl⟩ := h
-  exact foldl_Inv evs (init_Inv totals)
+  exact foldl_Inv (ar := false) (fun e => by cases e) evs (init_Inv totals)
 
 /-! ### `total` never changes -/
 @[simp] theorem put_total (s : St) (j jb cbs ths) : (s.put j jb cbs ths).total = s.total := rfl
@@ -1083,7 +1109,9 @@ theorem Reachable.inv {fl totals s} (h : Reachable fl totals s) : ∃ N, Inv s N
 @[simp] theorem resume_total (fl s j) : (St.resume fl s j).total = s.total := by
   unfold St.resume; simp only []
   split
-  · split <;> simp
+  · split
+    · simp; split <;> simp
+    · simp
   all_goals first | rfl | (simp; done) | (simp; split <;> rfl)
 @[simp] theorem runCb_total (fl s cb) : (St.runCb fl s cb).total = s.total := by
   cases cb <;> simp [St.runCb]
@@ -1132,7 +1160,16 @@ theorem Inv.job {s N} (h : Inv s N) (j : Nat) :
     ((s.jobs j).state = .running → (s.jobs j).pc.run = true) := by
   have := h.1 j
   simp only [PJ, KJ] at this
-  exact ⟨this.2.2.2.2.1, this.2.2.2.2.2.1, this.2.2.2.2.2.2⟩
+  exact ⟨this.2.2.2.2.1, this.2.2.2.2.2.1, this.2.2.2.2.2.2.1⟩
+
+/-- with the `abortReleases` repair: whoever holds something between two steps has been launched. -/
+theorem InvA.hold_run {s N} (h : InvA true s N) (j : Nat) (hh : (s.jobs j).held ≠ []) : (s.jobs j).pc.run = true := by
+  have := h.1 j
+  simp only [PJ, KJ] at this
+  have h1 := this.2.2.2.2.1 hh
+  have h2 := this.2.2.2.2.2.2.2 trivial
+  revert h1 h2 hh
+  cases (s.jobs j).pc <;> simp [PC.holds, PC.run]
 
 theorem heldTok_all {jb : Job} (h : jb.held = List.range jb.deps.length) (t : Nat) : heldTok jb t = request jb t := by
   unfold heldTok request; rw [h]; exact sumTok_range _ _
